@@ -138,6 +138,7 @@ package routing
 
 //@ func lag(inflow, lagged, timeLag, outflow) returns (r)
 //@   locals lagSteps, idx, i, idxInflow, i, i, i, i
+//@   loopsigs 6bc312ab 352e7ea0 67f41d6c b21c8381 c90fd63e
 //@   kernel causal-by-ensures
 //@   states lagged
 //@   noalias
@@ -231,6 +232,7 @@ package routing
 
 //@ func (*Muskingum).Run(m, inputs, states, outputs)
 //@   locals inputDims, numCells, numStates, numInputSequences, inputLen, cellInputsShape, inputNewShape, outputStepSlice, outputSizeSlice, statesSizeSlice, inputsSizeSlice, doneChan, j, outputPosSlice, statesPosSlice, inputsPosSlice, k, x, deltat, initialStates, s, previnflow, prevoutflow, cellInputs, inflow, lateral, outflow, j
+//@   loopsigs c4416304 e11cefee
 //@   ndmodel locations
 //@   requires inputs.rank == 3 && states.rank == 2 && outputs.rank == 3
 //@   requires inputs.dim(0) >= 1 && inputs.dim(1) == 2 && inputs.dim(2) >= 0 && states.dim(0) >= 0 && states.dim(1) == 3
@@ -277,6 +279,7 @@ package routing
 
 //@ func (*Lag).Run(m, inputs, states, outputs)
 //@   locals inputDims, numCells, numStates, numInputSequences, inputLen, cellInputsShape, inputNewShape, outputStepSlice, outputSizeSlice, statesSizeSlice, inputsSizeSlice, doneChan, j, outputPosSlice, statesPosSlice, inputsPosSlice, timelag, initialStates, lagged, cellInputs, inflow, outflow, j
+//@   loopsigs 912769c5 e11cefee
 //@   ndmodel locations
 //@   requires inputs.rank == 3 && states.rank == 2 && outputs.rank == 3
 //@   requires inputs.dim(0) >= 1 && inputs.dim(1) == 1 && inputs.dim(2) >= 0 && states.dim(0) >= 0 && states.dim(1) >= 0
